@@ -81,12 +81,34 @@ def directed_duplicate(rng):
     return b
 
 
+def directed_nested_paths(rng):
+    """Top.sys -> d1/Mid.sys -> d1/d2/Inner.sys -> d1/d2/Leaf.comp, every import spelled relative to the importing file's own
+    directory, no include list; decoy Leaf.comp files (other contents) sit where a resolution relative to the invocation
+    directory would look.  The result must not depend on where the compiler is started."""
+    leaf = progen.CompGen(rng, name="Leaf", size=4, nports=(1, 1), port_lens=(4,)).build()
+    decoy = progen.CompGen(rng, name="Leaf", size=5, nports=(1, 1), port_lens=(4,)).build()
+    b = progen.Bundle()
+    d1, d2 = rng.choice(["d1", "lib", "parts"]), rng.choice(["d2", "deep", "x"])
+    b.texts["%s/%s/Leaf.comp" % (d1, d2)] = progen.render_comp(leaf, rng)
+    for where in ("%s/Leaf.comp" % d2, "Leaf.comp", "%s/Leaf.comp" % d1):
+        if rng.random() < 0.7:
+            b.texts[where] = progen.render_comp(decoy, rng)
+    st1, st2 = rng.choice(["", "*"]), rng.choice(["", "*"])
+    b.texts["%s/%s/Inner.sys" % (d1, d2)] = "declare system Inner: x%s -> y\nimport Leaf\ncomponent g = Leaf: x -> y%s\n" % (st1, st2)
+    b.texts["%s/Mid.sys" % d1] = "declare system Mid: p -> q%s\nimport %s/Inner\ncomponent i = Inner: p%s -> q\n" % (st2, d2, st1)
+    b.texts["Top.sys"] = "declare system Top:  -> \nimport %s/Mid\ncomponent m = Mid: s -> t\ncomponent n = Mid: t%s -> u\n" % (d1, st1)
+    b.entry = "Top"
+    b.includes = []
+    b.directed = True
+    return b
+
+
 def run(st, tier, seed):
     res = Result("C18")
     res.rule = ("accepted programs x {pil, des} x configurations (hash seed, 0-4 earlier compiles in the process, invocation directory); "
                 "non-trivial = program with an anonymous region; distinct by (source, configuration)")
     rng = core.rng_for(seed, "c18")
-    n = 9 if tier == "quick" else 110
+    n = 12 if tier == "quick" else 120
     nconf = 4 if tier == "quick" else 12
     drv = core.Driver() if st.driver_ok else None
     reqs, meta = [], []
@@ -100,6 +122,9 @@ def run(st, tier, seed):
         if i % 4 == 0:
             b = directed_duplicate(rng)
             res.count("directed:duplicate-template-in-two-include-dirs")
+        elif i % 4 == 2:
+            b = directed_nested_paths(rng)
+            res.count("directed:nested-imports-relative-to-the-importing-file")
         if b is None:
             continue
         if not getattr(b, "directed", False) and any(k.endswith(".sys") for k in b.texts) and rng.random() < 0.6:
